@@ -72,15 +72,19 @@ type frame struct {
 }
 
 type Exec struct {
-	P          *Program
-	tt         *TermTable
-	lc         *layoutCache
-	solver     *Solver
-	fallbacks  []*Solver
-	race       bool
-	raceWins   [8]int
-	nFallbacks int
-	cfg        *RunConfig
+	P                                  *Program
+	tt                                 *TermTable
+	lc                                 *layoutCache
+	solver                             *Solver
+	fallbacks                          []*Solver
+	race                               bool
+	cross                              *Solver
+	crossSeq                           uint64
+	nCross, nCrossAgree, nCrossUnknown int
+	verdictQuery                       bool
+	raceWins                           [8]int
+	nFallbacks                         int
+	cfg                                *RunConfig
 
 	// per path
 	pc        []*Term
@@ -433,6 +437,20 @@ func (ex *Exec) solveFocus(c *Term, focus *Term) SatResult {
 		}
 	}
 	ex.nQueries++
+	if ex.verdictQuery && ex.cross != nil && res != Unknown {
+		ex.crossSeq++
+		if ex.cfg.CrossEvery <= 1 || (ex.crossSeq+uint64(ex.cfg.Seed))%uint64(ex.cfg.CrossEvery) == 0 {
+			cres, _, cnote := ex.cross.Check(p.String(), nil)
+			ex.nCross++
+			if cres == Unknown {
+				ex.nCrossUnknown++
+			} else if cres != res {
+				ex.abort(abortUnknown, "solver disagreement on a verdict query: %s says %s, %s says %s (%s)", ex.solver.kind, res, ex.cross.kind, cres, cnote)
+			} else {
+				ex.nCrossAgree++
+			}
+		}
+	}
 	switch res {
 	case Sat:
 		ex.nSat++
@@ -742,7 +760,10 @@ func (ex *Exec) check(ok *Term, what string) {
 		return
 	}
 	bad := ex.tt.Not(ok)
-	if ex.solve(bad) == Sat {
+	ex.verdictQuery = true
+	r := ex.solve(bad)
+	ex.verdictQuery = false
+	if r == Sat {
 		ex.recordViolation("panic", what, bad)
 		if ok.IsFalse() || ex.solve(ok) != Sat {
 			ex.record(2)
@@ -770,7 +791,10 @@ func (ex *Exec) assertProp(id string, c *Term) {
 		return
 	}
 	bad := ex.tt.Not(c)
-	if ex.solve(bad) == Sat {
+	ex.verdictQuery = true
+	r := ex.solve(bad)
+	ex.verdictQuery = false
+	if r == Sat {
 		ex.recordViolation("assert", id, bad)
 		holds := !c.IsFalse() && ex.solve(c) == Sat
 		if kf := ex.P.knownFor(ex.known, "assert", id); kf != "" && holds {
